@@ -120,18 +120,47 @@ def dummy_args(fn):
     return args
 
 
+def string_kinds():
+    """Kinds of values for string arguments that may name a resource: URLs, existing local files with an
+    audio / video / unknown extension (created under build/), a path that does not exist."""
+    d = os.path.join(common.BUILD, "argfiles")
+    os.makedirs(d, exist_ok=True)
+    out = ["http://127.0.0.1:9/verif.mp4", "https://127.0.0.1:9/verif.mp3"]
+    for name in ("verif.mp3", "verif.mp4", "verif.bin"):
+        path = os.path.join(d, name)
+        if not os.path.exists(path):
+            with open(path, "wb") as f:
+                f.write(b"\0" * 64)
+        out.append(path)
+    out.append(os.path.join(d, "does-not-exist.wav"))
+    return out
+
+
+def _is_str_annotation(a):
+    import typing
+    if a is str:
+        return True
+    return typing.get_origin(a) is typing.Union and str in typing.get_args(a)
+
+
 def arg_variants(fn):
     """Keyword-argument variations of a public member, one parameter at a time: every value of every
-    enum-typed parameter (required or optional), both values of bool parameters, a non-default number.
+    enum-typed parameter (required or optional), both values of bool parameters, a non-default number, and
+    for string parameters every KIND of value (see string_kinds).
     The first variant is {} (defaults / dummy_args)."""
     from enum import Enum
     out = [{}]
     sig = inspect.signature(fn)
     for i, (n, p) in enumerate(sig.parameters.items()):
-        if (i == 0 and n == "self") or p.kind in (p.VAR_POSITIONAL, p.VAR_KEYWORD, p.POSITIONAL_ONLY):
+        if (i == 0 and n == "self") or p.kind in (p.VAR_POSITIONAL, p.VAR_KEYWORD):
+            continue
+        if p.kind == p.POSITIONAL_ONLY and p.default is not p.empty:
             continue
         a = p.annotation
         d = p.default
+        if _is_str_annotation(a) and (d is p.empty or isinstance(d, str)):
+            out += [{n: v} for v in string_kinds()]
+            continue
         if isinstance(d, Enum):
             vals = [v for v in type(d) if v != d]
         elif inspect.isclass(a) and issubclass(a, Enum):
